@@ -386,10 +386,10 @@ mutual
 def Expr.lexOut : Expr → Bool → List Lex
   | .leaf _ t b a, na => cm b ++ [.tok t] ++ (if na then [] else cm a)
   | .list v _ inner b a, na =>
-    cm b ++ [.tok ['[']] ++ (match v with | [] => cm inner | _ :: _ => lexOutAll v) ++ [.tok [']']] ++
+    cm b ++ [.tok ['[']] ++ (if v.isEmpty then cm inner else lexOutAll v) ++ [.tok [']']] ++
       (if na then [] else cm a)
   | .set v _ r inner b a, na =>
-    cm b ++ recLex r ++ [.tok ['{']] ++ (match v with | [] => cm inner | _ :: _ => lexOutAll v) ++ [.tok ['}']] ++
+    cm b ++ recLex r ++ [.tok ['{']] ++ (if v.isEmpty then cm inner else lexOutAll v) ++ [.tok ['}']] ++
       (if na then [] else cm a)
   | .binding n v _ b a, na =>
     cm b ++ [.tok n, .tok ['=']] ++ v.lexOut true ++ [.tok [';']] ++ cm (v.after ++ (if na then [] else a))
